@@ -164,31 +164,30 @@ class GpOptimiser:
                 """
             )
 
-        # store the acquisition function value of the new point
-        self.acquisition_max_history.append(self.acquisition(new_x))
-        self.convergence_metric_history.append(
-            self.acquisition.convergence_metric(new_x)
-        )
-        self.iteration_history.append(self.y.size + 1)
-
-        # update the data arrays
-        self.x = append(self.x, new_x, axis=0)
-        self.y = append(self.y, new_y)
-
-        if self.y_err is not None:
-            self.y_err = append(self.y_err, new_y_err)
+        # the extended data arrays - stored only once the model has been re-fitted to
+        # them, so that a call which fails (a NaN value from a failed objective, a
+        # singular covariance) leaves the optimiser as it was
+        x = append(self.x, new_x, axis=0)
+        y = append(self.y, new_y)
+        y_err = None if self.y_err is None else append(self.y_err, new_y_err)
+        acquisition_max = self.acquisition(new_x)
+        convergence_metric = self.acquisition.convergence_metric(new_x)
 
         # re-train the GP
-        self.gp = GpRegressor(
-            x=self.x,
-            y=self.y,
-            y_err=self.y_err,
+        gp = GpRegressor(
+            x=x,
+            y=y,
+            y_err=y_err,
             kernel=self.kernel,
             mean=self.mean,
             cross_val=self.cross_val,
             optimizer=self.optimizer,
             n_processes=self.n_processes,
         )
+        self.x, self.y, self.y_err, self.gp = x, y, y_err, gp
+        self.acquisition_max_history.append(acquisition_max)
+        self.convergence_metric_history.append(convergence_metric)
+        self.iteration_history.append(self.y.size)
         self.mu_max = self.y.max()
 
         # update the acquisition function info
